@@ -178,6 +178,17 @@ Theorem C19_ruleset_total : forall proxy def st e,
 Proof. exact ruleset_total_now. Qed.
 Print Assumptions C19_ruleset_total.
 
+(** a rule set in which a rule id occurs twice (the rules before the second occurrence can be created) is a
+    clean rejection: no exit, the loaded rules stay *)
+Theorem C19_duplicate_id_rejected : forall f proxy def st e rs1 r rs2,
+  fxdup f = true -> ev_parse e = PParsed (rs1 ++ r :: rs2) ->
+  String.eqb (ev_version e) "1alpha4" = true ->
+  existsb (String.eqb (r_name r)) (map r_name rs1) = true ->
+  (forall x, In x rs1 -> create_rule f proxy def x = Ok tt) ->
+  process f proxy def st e = RsRejected st.
+Proof. exact duplicate_id_rejected. Qed.
+Print Assumptions C19_duplicate_id_rejected.
+
 (** for any set of repairs: well-typed steps (or checked assertions) suffice *)
 Theorem C19_ruleset_total_typed : forall f proxy def st e,
   (fx3 f = true \/ ev_typed e = true) -> ev_oracle_total f e = true ->
